@@ -50,6 +50,14 @@ def gen(tier, rnd):
     for _ in range(n):
         q = '.'.join(str(rnd.randrange(256)) for _ in range(4))
         lines.append('addr ' + hx(q + rnd.choice(['', ':%d' % rnd.randrange(65536)])))
+    # a literal followed (or preceded) by a blank / control character and anything else is no literal: a lenient numeric conversion
+    # (inet_aton stops at white space) would accept the leading quad
+    for lit in ('1.2.3.4', '127.0.0.1', '255.255.255.255', '[::1]', 'localhost', '*'):
+        for tail in (' ', '\t', ' junk', '\tjunk', ' ]', ' 5.6.7.8', '\n', '\x0b', '\x7f', ' \t ', '\x01'):
+            for port in ('', ':80', ':65535'):
+                lines.append('addr ' + hx(lit + tail + port))
+                lines.append('addr ' + hx(tail + lit + port))
+            lines.append('addrhp %s 80' % hx(lit + tail))
     # the (host, Port) constructor: the host must be a bare literal; a host that brings its own ':port' tail is malformed
     for h in ['1.2.3.4', '[::1]', 'localhost', '*', '[2001:db8::1]', '1.2.3.4:80', '127.0.0.1:8080', '[::1]:8080', '127.0.0.1:', 'localhost:1', '1.2.3.4:x', '[::1]x', '']:
         for prt in [0, 80, 9000, 65535]:
@@ -102,6 +110,14 @@ def oracle(line, out):
     w = line.split()
     if out.startswith(BAD):
         return ('memory', 'implementation aborted/hung: ' + out)
+    # a text with a blank or a control byte in it is neither a literal nor an alias nor a host name
+    if w[0] in ('addr', 'addrhp') and out.startswith('ok'):
+        raw = unhx(w[1])
+        # (the HOST part: what is in front of the last colon - the port part is read by strtol, whose leniency towards leading blanks
+        # is the code's documented behaviour and is modelled as it is)
+        host = raw if w[0] == 'addrhp' else (raw[:raw.rfind(b']') + 1] if raw.startswith(b'[') and b']' in raw else (raw[:raw.rfind(b':')] if b':' in raw else raw))
+        if any(b <= 32 or b >= 127 for b in host):
+            return ('malformed-accepted', 'the malformed text %r was accepted as %s' % (raw, out[:60]))
     if ' cstr-' in out:
         return ('cstr', 'the (const char*) constructor of Address disagrees with the (std::string) one on the same text: ' + out[-40:])
     if out.startswith('err ') and out != 'err invalid_argument':
